@@ -1,7 +1,7 @@
 (* C11 - The command-byte table is total, exact and invertible.
    Statements only; every proof is `exact <lemma>` from Proofs/.  The byte domain 0 <= b < 256 is
    complete because the Rust argument is a u8. *)
-From Ctap Require Import Base Schema Procs Inst ProcTables Finite C11P ObOpTables FnShapes Shapes ObShapeRequest Deps ObDeps ObShapeTablesOp.
+From Ctap Require Import Base Schema Procs Inst ProcTables Finite C11P ObOpTables FnShapes Shapes ObShapeRequest Deps ObDeps ObShapeTablesOp PlainDecls ObPlainMisc.
 Local Open Scope string_scope.
 Local Open Scope Z_scope.
 
@@ -135,6 +135,10 @@ Proof. exact generated_deps. Qed.
 Theorem c11_modelled_functions_unchanged_tables_op : shapes_hold fn_shapes shapes_tables_op = true.
 Proof. exact generated_shapes_tables_op. Qed.
 
+(* the plain structures (no serde meaning of their own) whose member types the model relies on *)
+Theorem c11_plain_structures_unchanged_misc : plain_hold raw_decls plain_misc = true.
+Proof. exact generated_plain_misc. Qed.
+
 Eval vm_compute in "ASSUMPTIONS c11_recognised_exact". Print Assumptions c11_recognised_exact.
 Eval vm_compute in "ASSUMPTIONS c11_vendor_try_from". Print Assumptions c11_vendor_try_from.
 Eval vm_compute in "ASSUMPTIONS c11_roundtrip". Print Assumptions c11_roundtrip.
@@ -153,3 +157,4 @@ Eval vm_compute in "ASSUMPTIONS c11_generated_route". Print Assumptions c11_gene
 Eval vm_compute in "ASSUMPTIONS c11_modelled_functions_unchanged_request". Print Assumptions c11_modelled_functions_unchanged_request.
 Eval vm_compute in "ASSUMPTIONS c11_modelled_dependencies_pinned". Print Assumptions c11_modelled_dependencies_pinned.
 Eval vm_compute in "ASSUMPTIONS c11_modelled_functions_unchanged_tables_op". Print Assumptions c11_modelled_functions_unchanged_tables_op.
+Eval vm_compute in "ASSUMPTIONS c11_plain_structures_unchanged_misc". Print Assumptions c11_plain_structures_unchanged_misc.
